@@ -4,12 +4,14 @@ import os
 SPEC = os.path.join(os.path.dirname(os.path.dirname(os.path.abspath(__file__))), "spec")
 INV = "Refines HeldLive StoredLive NodeExclusive NodeUsedOwned Ledger EnvelopeLinear LoadSteps NodeBound TypeOK"
 BASE = dict(Threads="{1, 2}", Conts="{1}", NF=1, GenMod=4, NAddr=3, MaxNodes=3, MaxObj=6, WrapMode='"fixed"',
-            MaxSpur=1, SoloOn="FALSE", Bug='""')
+            MaxSpur=1, SoloOn="FALSE", Bug='""', Hist='"off"', UseFast="TRUE")
 T3 = "{1, 2, 3}"
 CFGS = {
     # name: (program, overrides, invariants)
     "rw1": ("P_rw1", {}, INV),
     "rw1_nf0": ("P_rw1", dict(NF=0), INV),
+    "rw1_nofast": ("P_rw1", dict(NF=1, UseFast="FALSE"), INV),
+    "lfsw_nofast": ("P_lfsw", dict(NF=1, UseFast="FALSE", MaxObj=5), INV),
     "rw1_nf2": ("P_rw1", dict(NF=2), INV),
     "rw1h": ("P_rw1h", {}, INV),
     "rw1h_nf0": ("P_rw1h", dict(NF=0), INV),
